@@ -223,18 +223,21 @@ EXT2 = {
     "C01": "WebSocket() constructor arguments that only shape the upgrade request (agent / protocols / extra headers beyond ASCII and Latin-1) are drawn as well.",
     "C04": "A violating frame that FOLLOWS a valid server Close is enumerated (class x plain/deflate x client closing) under six segmentations: nothing of it is delivered, at most one ProtocolError, and the same verdict under every cut. Every class is also run with the write of the client's own Close failing (reset / EPIPE / timeout / I/O error / arbitrary exception / EINTR / EAGAIN): the violation is still reported once and the connection still ends non-gracefully.",
     "C05": "Text is also carried on connections where permessage-deflate was offered by the client but declined by the server (an uncompressed connection in every respect, fail-fast included).",
-    "C06": "The offer may also be written by the application itself with add_header() (header name in any casing, compress=False): the peer accepts it and everything must hold as for compress=True (enumerated x 3 configurations x battery).",
-    "C07": "Constructor arguments that only shape the upgrade request (agent / protocols / extra headers with characters beyond ASCII, Latin-1 and the BMP, very long values) are drawn and enumerated (direct, through a proxy, wss).",
+    "C06": "The offer may also be written by the application itself with add_header() (header name in any casing, compress=False): the peer accepts it and everything must hold as for compress=True (enumerated x 3 configurations x battery). Empty elements in the comma-separated extension list (before / after the extension) are drawn and part of the spelling presets.",
+    "C07": "Constructor arguments that only shape the upgrade request (agent / protocols / extra headers with characters beyond ASCII, Latin-1 and the BMP, very long values) are drawn and enumerated (direct, through a proxy, wss). A real-descriptor stage (socketpair, PollSelector and SelectSelector): the application's handler closes the session at Ready / Poll / Text / Ping and keeps iterating - one terminal event must follow (verdict by counting events, not by the clock).",
     "C08": "Constructor arguments that only shape the upgrade request are drawn as well.",
     "C09": "The documented long-lived iterator persist() is driven over outages of 1100 consecutive attempts that fail in the transport (cannot connect / dropped before the reply / dropped after Ready) with the real client: no exception may leave the iterator. Constructor arguments that only shape the upgrade request are drawn as well.",
     "C10": "The earlier-connection dimension now also applies to the chained runs this check uses (it was inert before round 17), with residues of the earlier connection that look like text lines or a header block.",
     "C12": "Four scenarios start from an application close() issued BEFORE Ready (at Connected): sends and a second close() then race with each other, with the loop's Pong and with the loop's handling of the server's Close.",
-    "C13": "Constructor arguments that only shape the upgrade request are drawn as well.",
-    "C14": "'Has not yet sent a Close frame' is judged from the wire (not from what close() returned); the application may call close() before the opening handshake has finished (drawn; the battery enumerated x auto_pong x segmentation x deflate).",
+    "C13": "Constructor arguments that only shape the upgrade request are drawn as well. Every abandonment when the proxy refuses the tunnel (six kinds of refusal x ws/wss) is enumerated.",
+    "C14": "'Has not yet sent a Close frame' is judged from the wire (not from what close() returned); the application may call close() before the opening handshake has finished (drawn; the battery enumerated x auto_pong x segmentation x deflate). connect() options may be passed positionally in the documented order (drawn; enumerated x auto_pong x deflate).",
     "C15": "A scheduled stage (the C11/C12 scheduler; every thread order x every single preemption, 4 scenarios) lets an automatic Ping fall due while another thread is inside a send, holding the write lock with half of its frame on the wire: exactly one automatic Ping must be on the wire afterwards.",
     "C16": "Two more outcomes: every write after the upgrade request fails for good (EPIPE) / times out - wherever the application's or the library's next write comes (at Connected, at Ready, ...).",
     "C19": "Proxy answers of two or three header blocks (100/102/103/101/204/407 first, then 200 or another status) are enumerated under every segmentation class: the answer is the first block, and it is not a 200.",
 }
+EXT2["C03"] = "The scheduled stage includes two compressing senders: unmasking and inflating in wire order must give back each caller's payload."
+EXT2["C11"] = "A non-scheduled enumeration runs a send that takes 12 / 45 / 400 s (a peer that stopped reading; sendall on a socket that still carries a timeout gives up half-way, as a real socket does) followed by other application sends and the loop's Pong, on direct / proxied / TLS connections x 3 sizes: whole frames holding exactly the messages sent."
+EXT2["C18"] = "A deterministic socketpair run per platform selector: the peer writes its last frames and is gone at once (POLLIN together with POLLHUP) - all of them are delivered before Disconnected."
 
 PENDING = {}
 
